@@ -119,6 +119,10 @@ class Analysis:
     def with_exit(self, s, o: Out, entered: Set) -> Out:
         return o
 
+    def leave_handler(self, state, handler):
+        """State after an except body ended normally (default: unchanged)."""
+        return state
+
     def loop_back(self, loop, state):
         """State with which the next iteration starts (default: unchanged)."""
         return state
@@ -353,6 +357,10 @@ class Analysis:
                 finally:
                     self.handler_stack.pop()
                 ho.exc = {(s2, tag if t2 == RERAISE else t2, n2) for (s2, t2, n2) in ho.exc}
+                # Python unbinds `as e` when the handler ends
+                ho.normal = {self.leave_handler(x, h) for x in ho.normal}
+                ho.brk = {self.leave_handler(x, h) for x in ho.brk}
+                ho.cont = {self.leave_handler(x, h) for x in ho.cont}
                 res.absorb(ho, True)
                 if m == "yes":
                     caught = True
